@@ -443,7 +443,7 @@ def dbg_info(ref):
     return {'fn': fn, 'line': int(loc.get('line', '0')), 'chain': chain}
 
 # ---------------- module -----------------
-OPTS = {'r4': True, 'writeset': False}
+OPTS = {'r4': True, 'writeset': False, 'ws_allow': None}
 FN_ATTRS = ('private', 'internal', 'external', 'linkonce_odr', 'weak_odr', 'dso_local', 'unnamed_addr', 'local_unnamed_addr', 'hidden', 'fastcc', 'noundef', 'nonnull', 'zeroext', 'signext', 'noalias', 'available_externally', 'weak', 'nocapture', 'readonly', 'writeonly', 'readnone', 'immarg', 'returned', 'nofree', 'inreg', 'linkonce', 'swiftself', 'nest', 'coldcc', 'protected', 'default', 'cold')
 
 def parse_fn_header(p):
@@ -489,6 +489,7 @@ def main():
     loops_out = None
     for f in flags:
         if f == '--writeset': OPTS['writeset'] = True
+        elif f.startswith('--ws-allow='): OPTS['ws_allow'] = re.compile(f.split('=', 1)[1])
         elif f == '--no-r4': OPTS['r4'] = False
         elif f.startswith('--loops='): loops_out = f.split('=', 1)[1]
     src = open(args[0]).read().split('\n')
@@ -590,6 +591,7 @@ def main():
     o.append('#include <stdint.h>\n#include <string.h>\n#include <stddef.h>\n#include <stdlib.h>')
     o.append('#ifndef __CPROVER__\nvoid __CPROVER_assert(int, const char*); void __CPROVER_assume(int);\n#endif')
     o.append('extern int exc_pending;')
+    if OPTS['writeset']: o.append('void ws_check(void* p);')
     for n in named: o.append('struct %s;' % short(n, 'S_'))
     o += OUT_TYPES + gdecl + out_protos + out_globals
     text = '\n'.join(o) + '\n'
@@ -794,6 +796,7 @@ def writeset_check(out, pv):
     if not OPTS['writeset']: return
     g = base_global(pv)
     if g is not None:
+        if OPTS['ws_allow'] is not None and OPTS['ws_allow'].search(g): return
         out.append('__CPROVER_assert(0, "WRITESET: store to module global %s");' % g)
     elif re.fullmatch(r'v_\w+', pv) and pv not in LV:
         out.append('ws_check((void*)%s);' % pv)
@@ -942,7 +945,8 @@ def emit_inst(p, out, decls, phis, curlab):
                 d, sr, n = args[0][1], args[1][1], args[2][1]
                 if OPTS['writeset']:
                     g = base_global(d) or (d in BC and base_global(BC[d][0]))
-                    if g: out.append('__CPROVER_assert(0, "WRITESET: memcpy into module global %s");' % g)
+                    if g and OPTS['ws_allow'] is not None and OPTS['ws_allow'].search(g): pass
+                    elif g: out.append('__CPROVER_assert(0, "WRITESET: memcpy into module global %s");' % g)
                     else: out.append('ws_check((void*)%s);' % d)
                 if d in BC and sr in BC and tstr(BC[d][1]) == tstr(BC[sr][1]) and re.fullmatch(r'\d+U?L?L?', n):
                     nn = int(n.rstrip('UL')); T0 = BC[d][1]
